@@ -341,7 +341,7 @@ _EXPR_KINDS = {"var", "lit", "un", "bin", "cast", "cond", "assign", "incdec", "i
                "addr", "call", "sizeof"}
 
 
-def _lv_root(lv, p, wr, rd, calls, write, read, seen=frozenset()):
+def _lv_root(lv, p, wr, rd, calls, write, read, seen=frozenset(), sub=True):
     """an lvalue expression being written: its root variable (or '*' for anything reached through a pointer)"""
     k = lv[0]
     if k == "var":
@@ -350,22 +350,25 @@ def _lv_root(lv, p, wr, rd, calls, write, read, seen=frozenset()):
         if read:
             rd.add(lv[1])
     elif k in ("index", "deref", "arrow"):
-        # through a pointer / array element: the written object is not known statically
-        if write:
-            wr.add("*")
-        if read:
-            rd.add("*")
         root = lv[1]
-        if k == "index" and root[0] == "var":
+        if k == "index" and root[0] == "var" and root[1] in _array_names(p):
+            # element of a named array object
             if write:
                 wr.add(root[1])
             if read:
                 rd.add(root[1])
-        for x in lv[1:]:
-            if isinstance(x, list):
-                _effects(x, p, wr, rd, calls, seen)
+        else:
+            # through a pointer: the accessed object is not known statically ('*' = some aliasable object)
+            if write:
+                wr.add("*")
+            if read:
+                rd.add("*")
+        if sub:
+            for x in lv[1:]:
+                if isinstance(x, list):
+                    _effects(x, p, wr, rd, calls, seen)
     elif k == "field":
-        _lv_root(lv[1], p, wr, rd, calls, write, read, seen)
+        _lv_root(lv[1], p, wr, rd, calls, write, read, seen, sub)
     else:
         raise Unsupported(f"lvalue {k}")
 
@@ -442,13 +445,63 @@ def _calls_external(name, p, seen=None):
     return True
 
 
-def _interferes(w, x):
-    """writes w against accesses x ('*' = some object reached through a pointer: may alias anything)"""
+_INFO = {}
+
+
+def _prog_info(p):
+    """(names of array objects, names an access through a pointer may designate): globals, arrays, structs and
+    every variable whose address is taken somewhere in the program (names are not distinguished by scope:
+    conservative)"""
+    key = id(p)
+    hit = _INFO.get(key)
+    if hit is not None and hit[0] is p:
+        return hit[1]
+    arrays, alias = set(), set()
+    for name, t, _ in p.get("globals", []):
+        alias.add(name)
+        if is_arr(T(t)):
+            arrays.add(name)
+
+    def walk(x):
+        if isinstance(x, list) and x:
+            if x[0] == "decl" and len(x) == 4:
+                t = T(x[1])
+                if is_arr(t):
+                    arrays.add(x[2])
+                    alias.add(x[2])
+                elif is_struct(t):
+                    alias.add(x[2])
+            if x[0] == "addr":
+                y = x[1]
+                while isinstance(y, list) and y[0] in ("field", "index"):
+                    y = y[1]
+                if isinstance(y, list) and y[0] == "var":
+                    alias.add(y[1])
+            for y in x:
+                walk(y)
+    for f in p["funcs"]:
+        walk(f[3])
+    if len(_INFO) > 64:
+        _INFO.clear()
+    _INFO[key] = (p, (arrays, alias))
+    return arrays, alias
+
+
+def _array_names(p):
+    return _prog_info(p)[0]
+
+
+def _interferes(w, x, p):
+    """writes w against accesses x ('*' = some object reached through a pointer: may designate any aliasable
+    object, never a scalar variable whose address is not taken)"""
     if not w or not x:
         return False
-    if "*" in w or "*" in x:
+    alias = _prog_info(p)[1]
+    if "*" in w and ("*" in x or x & alias):
         return True
-    return bool(w & x)
+    if "*" in x and (w & alias):
+        return True
+    return bool((w - {"*"}) & (x - {"*"}))
 
 
 def _conflict(a, b, p):
@@ -457,7 +510,7 @@ def _conflict(a, b, p):
     wb, rb, cb = b
     if any(_calls_external(c, p) for c in ca) and any(_calls_external(c, p) for c in cb):
         return True                      # indeterminately sequenced calls: the order is visible in the trace
-    return _interferes(wa, wb | rb) or _interferes(wb, wa | ra)
+    return _interferes(wa, wb | rb, p) or _interferes(wb, wa | ra, p)
 
 
 def check_expr(e, p):
@@ -486,9 +539,9 @@ def check_expr(e, p):
     if k in ("assign", "incdec"):
         # the store is sequenced after the value computations of the operands, but not after their side effects
         w0 = set()
-        _lv_root(e[2], p, w0, set(), [], write=True, read=False)
+        _lv_root(e[2], p, w0, set(), [], write=True, read=False, sub=False)     # the stored-to object only
         for (wr, rd, calls) in groups:
-            if _interferes(w0, wr):
+            if _interferes(w0, wr, p):
                 raise Unsupported(f"object modified twice without sequence point in {render_expr(e)}")
 
 
